@@ -7,6 +7,7 @@ pid = sys.argv[1]
 mapping = dict(a.split('=') for a in sys.argv[2:])
 kf = json.load(open('/verif/known_findings.json'))
 prop = json.load(open(f'/verif/findings/{pid}/proposed_findings.json'))['findings']
+if os.path.exists(f'/verif/findings/{pid}/fallback_findings.json'): prop += json.load(open(f'/verif/findings/{pid}/fallback_findings.json'))['findings']
 byid = {e['id']: e for e in prop}
 for fid, how in mapping.items():
     e = byid[fid]
